@@ -330,7 +330,9 @@ Section Pitr.
           let t3 := patch t2 35 (be_put 8 (s_max_ts st)) in
           let t4 := patch t3 57 (be_put 4 (s_kept st)) in
           let t5 := patch t4 17 (be_put 4 (crc (skipn 21 t4))) in
-          do _ <- make 1 (zlen t5);
+          (* NewRecordBatchFromBytes copies len(truncated) bytes; the in-place PutUint32/64
+             above never change the length *)
+          do _ <- make 1 (zlen t0);
           ret (Some t5, true).
 
   (* collectRecoverableBatches: the bytes of the kept batches *)
